@@ -14,7 +14,10 @@ def run(ded, repo, tier):
     driver.run_parallel(ded, specs)
     ded.assume('keys/values are opaque with total, deterministic, side-effect-free ==/hash; the private sentinel _MISSING is never a key or value')
     ded.trust('builtin dict/list models: map + ghost size, (array, length); len(d) == 0 iff d has no key')
-    ded.trust('not under contract (bounded only): __init__/update/update_extend/addlist/copy/pickling, == / !=, itervalues, '
+    ded.assume('update/update_extend/addlist take opaque arguments (any mapping, OMD or iterable of pairs / values); list(x) of an '
+               'opaque iterable is a list whose items are the same at every traversal; the proved postcondition of update and '
+               'update_extend is the invariant (they act only through add / []= / del, whose contracts fix each step)')
+    ded.trust('not under contract (bounded only): __init__/copy/pickling, == / !=, itervalues, '
               'the multi=False readers, __reversed__ and the derived views (todict, counts, inverted, sorted...), QueryParamDict')
     ded.assume('completeness of the ordered readers is stated as: the walk starts at the oldest and ends at the newest cell, '
                'follows stamp successors, and no live cell lies strictly between two consecutive items; that every pair is '
